@@ -177,11 +177,14 @@ def guarded(oracle, case, stats):
     import signal
     import threading
     armed = False
+    budget = CASE_TIMEOUT
     if threading.current_thread() is threading.main_thread() and hasattr(signal, "setitimer"):
         try:
             if signal.getitimer(signal.ITIMER_REAL)[0] == 0:
                 old = signal.signal(signal.SIGALRM, _on_alarm)
-                signal.setitimer(signal.ITIMER_REAL, CASE_TIMEOUT)
+                # a case that is big by construction (a million lines) names its own budget
+                budget = max(CASE_TIMEOUT, float(case.get("budget_s", 0))) if isinstance(case, dict) else CASE_TIMEOUT
+                signal.setitimer(signal.ITIMER_REAL, budget)
                 armed = True
         except (ValueError, OSError):
             armed = False
@@ -192,7 +195,7 @@ def guarded(oracle, case, stats):
         # a budget hit alone is inconclusive (the machine may be loaded): the case is run again, alone, with a much longer limit;
         # only a second trip - four to five orders of magnitude above the normal cost of a case - is reported as a hang
         if armed:
-            signal.setitimer(signal.ITIMER_REAL, CASE_TIMEOUT * 3)
+            signal.setitimer(signal.ITIMER_REAL, budget * 3)
             try:
                 r = _guarded(oracle, case, NullStats())
                 stats.label("slow-case-finished-on-retry(inconclusive)")
@@ -200,7 +203,7 @@ def guarded(oracle, case, stats):
             except _Watchdog:
                 pass
         raise Violation(case, "the code under test did not finish within %.0f s, and again not within %.0f s when re-run alone (normal cost: milliseconds) - hang or "
-                              "super-linear blow-up" % (CASE_TIMEOUT, CASE_TIMEOUT * 3), terminal=True)
+                              "super-linear blow-up" % (budget, budget * 3), terminal=True)
     finally:
         if armed:
             signal.setitimer(signal.ITIMER_REAL, 0)
